@@ -307,14 +307,16 @@ Section Top.
   Qed.
 
   Lemma sp_take_charge_spec : forall sp value sr charge vl,
-    sp_coin (sp_reward sp) -> (forall c, chargef (ss_charge (sp_set sp)) value = Some c -> 0 <= c <= value) ->
-    value < sp_max ->
+    sp_coin (sp_reward sp) -> (forall c, chargef (ss_charge (sp_set sp)) value = Some c -> 0 <= c) ->
+    0 <= value < sp_max ->
     sp_take_charge chargef sp value = Some (sr, charge, vl) ->
     sr = sp_reward sp + charge /\ vl = value - charge /\ 0 <= charge <= value.
   Proof.
     unfold sp_take_charge. intros sp value sr charge vl Hr Hc Hv H.
-    destruct (chargef (ss_charge (sp_set sp)) value) as [c|] eqn:Hcf; [|discriminate].
-    specialize (Hc c eq_refl).
+    destruct (chargef (ss_charge (sp_set sp)) value) as [c0|] eqn:Hcf; [|discriminate].
+    specialize (Hc c0 eq_refl). cbv zeta in H.
+    set (c := if c0 >? value then value else c0) in *.
+    assert (Hcr : 0 <= c <= value) by (unfold c; destruct (Z.gtb_spec c0 value); lia).
     destruct (Z.gtb_spec c 0).
     - destruct (sp_add_coin (sp_reward sp) c) as [x|] eqn:Ha; [|discriminate]. inversion H; subst.
       apply sp_add_coin_some in Ha. destruct Ha as [-> _].
@@ -326,7 +328,7 @@ Section Top.
      deferred assertion cannot fire *)
   Lemma sp_distribute_body_spec : forall sp value,
     sp_wf sp -> 0 < value -> sp_total_rewards sp + value < sp_max ->
-    (forall c, chargef (ss_charge (sp_set sp)) value = Some c -> 0 <= c <= value) ->
+    (forall c, chargef (ss_charge (sp_set sp)) value = Some c -> 0 <= c) ->
     sp_distribute_body chargef sharef sp value <> SpPanic /\
     forall sp' charge incs, sp_distribute_body chargef sharef sp value = SpOk (sp', charge, incs) ->
       sp_deferred_ok charge incs value = true /\
@@ -374,7 +376,7 @@ Section Top.
   (* DistributeRewards: exact split, no panic, nothing for a killed / under-staked provider *)
   Lemma sp_distribute_exact : forall sp value,
     sp_wf sp -> 0 <= value -> sp_total_rewards sp + value < sp_max ->
-    (forall c, chargef (ss_charge (sp_set sp)) value = Some c -> 0 <= c <= value) ->
+    (forall c, chargef (ss_charge (sp_set sp)) value = Some c -> 0 <= c) ->
     sp_distribute chargef sharef sp value <> SpPanic /\
     forall sp', sp_distribute chargef sharef sp value = SpOk sp' ->
       exists total, sp_stake sp = Some total /\
@@ -548,11 +550,11 @@ Section TopRandN.
   Variable sharef : Z -> Z -> Z -> option Z.
   Hypothesis sharef_nonneg : forall a b c r, sharef a b c = Some r -> 0 <= r.
 
-  (* DistributeRewardsRandN: only selected pools are credited; the total is exact unless the
-     selected pools have no stake, in which case only the service charge is credited *)
+  (* DistributeRewardsRandN: only selected pools are credited and the total is exact (when the
+     selected pools hold no stake the remainder goes to the provider) *)
   Lemma sp_distribute_randn_spec : forall sp value n draws,
     sp_wf sp -> 0 <= value -> sp_total_rewards sp + value < sp_max ->
-    (forall c, chargef (ss_charge (sp_set sp)) value = Some c -> 0 <= c <= value) ->
+    (forall c, chargef (ss_charge (sp_set sp)) value = Some c -> 0 <= c) ->
     let sel := sp_selection n draws (length (sp_pools sp)) in
     NoDup sel -> Forall (fun i => (i < length (sp_pools sp))%nat) sel ->
     sp_distribute_randn chargef sharef sp value n draws <> SpPanic /\
@@ -562,11 +564,7 @@ Section TopRandN.
         else
           sp_reward sp <= sp_reward sp' /\ sp_set sp' = sp_set sp /\ sp_killed sp' = sp_killed sp /\
           (exists e, sp_cred (sp_pools sp) e (sp_pools sp') /\ forall j, ~ In j sel -> nth j e 0 = 0) /\
-          (sp_total_rewards sp' = sp_total_rewards sp + value \/
-           (sp_pools sp <> [] /\
-            sp_stake_sum (map (fun i => nth i (sp_pools sp) sp_dflt) sel) 0 = Some 0 /\
-            sp_total_rewards sp <= sp_total_rewards sp' < sp_total_rewards sp + value /\
-            sp_pools sp' = sp_pools sp)).
+          sp_total_rewards sp' = sp_total_rewards sp + value.
   Proof.
     intros sp value n draws Hwf Hv Hsum Hch sel Hnd Hin. unfold sp_distribute_randn. fold sel.
     destruct (sp_stake sp) as [total|]; [|split; [discriminate|intros; discriminate]].
@@ -583,7 +581,7 @@ Section TopRandN.
       split; [reflexivity|]. apply sp_add_coin_some in Ha. destruct Ha as [-> _]. simpl.
       split; [lia|]. split; [reflexivity|]. split; [reflexivity|].
       split; [exists []; split; [constructor|intros [|j] _; reflexivity]|].
-      left. unfold sp_total_rewards; simpl. rewrite Hps; simpl. lia.
+      unfold sp_total_rewards; simpl. rewrite Hps; simpl. lia.
     - rewrite <- Hps in *.
       assert (Hne : sp_pools sp <> []) by (rewrite Hps; discriminate).
       destruct (sp_take_charge chargef sp value) as [[[sr charge] vl]|] eqn:Ht; [|split; [discriminate|intros; discriminate]].
@@ -592,14 +590,16 @@ Section TopRandN.
       + split; [discriminate|]. intros sp' H. injection H as <-. exists total. rewrite Hskip.
         split; [reflexivity|]. simpl. split; [lia|]. split; [reflexivity|]. split; [reflexivity|].
         split; [exists (map (fun _ => 0) (sp_pools sp)); split; [apply sp_cred_zeros|intros; apply sp_zeros_nth]|].
-        left. unfold sp_total_rewards; simpl. lia.
+        unfold sp_total_rewards; simpl. lia.
       + set (chosen := map (fun i => nth i (sp_pools sp) sp_dflt) sel) in *.
         destruct (sp_stake_sum chosen 0) as [stake|] eqn:Hst; [|split; [discriminate|intros; discriminate]].
         destruct (Z.eqb_spec stake 0) as [->|Hsnz].
-        * split; [discriminate|]. intros sp' H. injection H as <-. exists total. rewrite Hskip.
+        * destruct (sp_add_coin (sp_reward sp + charge) (value - charge)) as [sr2|] eqn:Ha2; [|split; [discriminate|intros; discriminate]].
+          apply sp_add_coin_some in Ha2. destruct Ha2 as [-> _].
+          split; [discriminate|]. intros sp' H. injection H as <-. exists total. rewrite Hskip.
           split; [reflexivity|]. simpl. split; [lia|]. split; [reflexivity|]. split; [reflexivity|].
           split; [exists (map (fun _ => 0) (sp_pools sp)); split; [apply sp_cred_zeros|intros; apply sp_zeros_nth]|].
-          right. split; [assumption|]. split; [reflexivity|]. unfold sp_total_rewards; simpl. split; [lia|reflexivity].
+          unfold sp_total_rewards; simpl. lia.
         * assert (Hcne : chosen <> []) by (intros E; rewrite E in Hst; simpl in Hst; inversion Hst; lia).
           destruct (sp_chosen_sum_le sel (sp_pools sp) Hnd Hin Hnn) as [Hcle Hcnn]. fold chosen in Hcle, Hcnn.
           destruct (sp_split_spec sharef sharef_nonneg (value - charge) stake chosen ltac:(lia) Hcne Hcnn ltac:(lia)) as [Hnp Hok].
@@ -620,10 +620,10 @@ Section TopRandN.
           -- destruct (sp_equal vb ps1 incs1) as [[ps2 incs2]| |] eqn:He; [|split; [discriminate|intros; discriminate]|contradiction].
              split; [discriminate|]. intros sp' H. injection H as <-. exists total. rewrite Hskip.
              split; [reflexivity|]. destruct (Hok _ _ eq_refl) as [Hcr Hs].
-             destruct (Hfin _ _ Hcr Hs) as (A & B & C & D & E). repeat split; try assumption. left; assumption.
+             destruct (Hfin _ _ Hcr Hs) as (A & B & C & D & E). repeat split; assumption.
           -- split; [discriminate|]. intros sp' H. injection H as <-. exists total. rewrite Hskip.
              split; [reflexivity|]. destruct (Hok _ _ eq_refl) as [Hcr Hs].
-             destruct (Hfin _ _ Hcr Hs) as (A & B & C & D & E). repeat split; try assumption. left; assumption.
+             destruct (Hfin _ _ Hcr Hs) as (A & B & C & D & E). repeat split; assumption.
   Qed.
 End TopRandN.
 
@@ -667,10 +667,12 @@ Qed.
 Lemma sp_sharef_go_nonneg : forall a b c r, sp_sharef_go a b c = Some r -> 0 <= r.
 Proof. intros a b c r H. apply sp_sharef_go_range in H. lia. Qed.
 
-(* with the Go floats only "charge <= value" remains as a hypothesis (the F-10a trigger) *)
+(* with the Go floats no hypothesis about the float results remains *)
+Lemma sp_chargef_go_nonneg : forall sp value c, sp_chargef_go (ss_charge (sp_set sp)) value = Some c -> 0 <= c.
+Proof. intros sp value c H. apply sp_chargef_go_range in H. lia. Qed.
+
 Lemma sp_distribute_exact_go : forall sp value,
   sp_wf sp -> 0 <= value -> sp_total_rewards sp + value < sp_max ->
-  (forall c, sp_chargef_go (ss_charge (sp_set sp)) value = Some c -> c <= value) ->
   sp_distribute sp_chargef_go sp_sharef_go sp value <> SpPanic /\
   forall sp', sp_distribute sp_chargef_go sp_sharef_go sp value = SpOk sp' ->
     exists total, sp_stake sp = Some total /\
@@ -680,90 +682,61 @@ Lemma sp_distribute_exact_go : forall sp value,
            (exists e, sp_cred (sp_pools sp) e (sp_pools sp')) /\
            sp_set sp' = sp_set sp /\ sp_killed sp' = sp_killed sp.
 Proof.
-  intros sp value Hwf Hv Hs Hc. apply sp_distribute_exact; try assumption.
+  intros sp value Hwf Hv Hs. apply sp_distribute_exact; try assumption.
   - exact sp_sharef_go_nonneg.
-  - intros c H. split; [apply sp_chargef_go_range in H; lia|apply Hc; exact H].
+  - apply sp_chargef_go_nonneg.
 Qed.
 
-(* ---------- refutations of the full statements (vm_compute witnesses) ---------- *)
+Lemma sp_distribute_randn_exact_go : forall sp value n draws,
+  sp_wf sp -> 0 <= value -> sp_total_rewards sp + value < sp_max ->
+  let sel := sp_selection n draws (length (sp_pools sp)) in
+  NoDup sel -> Forall (fun i => (i < length (sp_pools sp))%nat) sel ->
+  sp_distribute_randn sp_chargef_go sp_sharef_go sp value n draws <> SpPanic /\
+  forall sp', sp_distribute_randn sp_chargef_go sp_sharef_go sp value n draws = SpOk sp' ->
+    exists total, sp_stake sp = Some total /\
+      if (value =? 0) || sp_killed sp || (total <? ss_minstake (sp_set sp)) then sp' = sp
+      else
+        sp_reward sp <= sp_reward sp' /\ sp_set sp' = sp_set sp /\ sp_killed sp' = sp_killed sp /\
+        (exists e, sp_cred (sp_pools sp) e (sp_pools sp') /\ forall j, ~ In j sel -> nth j e 0 = 0) /\
+        sp_total_rewards sp' = sp_total_rewards sp + value.
+Proof.
+  intros sp value n draws Hwf Hv Hs sel Hnd Hin.
+  apply (sp_distribute_randn_spec sp_chargef_go sp_sharef_go sp_sharef_go_nonneg); try assumption.
+  apply sp_chargef_go_nonneg.
+Qed.
+
+(* ---------- regression witnesses of the two repaired defects (vm_compute) ---------- *)
 
 Definition sp_ratio_in_unit (r : f64) : Prop := f64_leb f64_zero r = true /\ f64_leb r (f64_of_Z 1) = true.
-
-Ltac sp_solve_coin := unfold sp_coin, sp_max; split; [apply Z.leb_le; reflexivity | apply Z.ltb_lt; reflexivity].
 
 Definition sp_mk_dp (id bal reward : Z) : sp_dpool :=
   {| dp_id := id; dp_bal := bal; dp_reward := reward; dp_status := 0; dp_staked_at := 0 |}.
 
-(* ratio 1.0, two delegates with equal stake, value 2^53 + 3 *)
+(* former F-10a: ratio 1.0, value 2^53 + 3, float64(value) = 2^53 + 4: the charge is clamped *)
 Definition sp_witness_f10a : sp_pool :=
   {| sp_pools := [sp_mk_dp 1 100 0; sp_mk_dp 2 100 0]; sp_reward := 0;
      sp_set := {| ss_wallet := 9; ss_maxdel := 10; ss_minstake := 0; ss_charge := f64_of_bits 4607182418800017408 |};
      sp_killed := false |}.
 
-Definition sp_witness_f10a_out : sp_pool :=
-  {| sp_pools := [sp_mk_dp 1 100 9223372036854775808; sp_mk_dp 2 100 9223372036854775807];
-     sp_reward := 9007199254740996; sp_set := sp_set sp_witness_f10a; sp_killed := false |}.
-
 Lemma sp_witness_f10a_run :
-  sp_distribute sp_chargef_go sp_sharef_go sp_witness_f10a 9007199254740995 = SpOk sp_witness_f10a_out.
-Proof. vm_compute. reflexivity. Qed.
+  match sp_distribute sp_chargef_go sp_sharef_go sp_witness_f10a 9007199254740995 with
+  | SpOk sp' => sp_reward sp' = 9007199254740995 /\ map dp_reward (sp_pools sp') = [0; 0]
+  | _ => False
+  end.
+Proof. vm_compute. split; reflexivity. Qed.
 
-Lemma sp_full_statement_refuted :
-  ~ (forall sp value sp' total,
-      sp_wf sp -> 0 <= value -> sp_total_rewards sp + value < sp_max ->
-      sp_ratio_in_unit (ss_charge (sp_set sp)) ->
-      sp_stake sp = Some total -> value <> 0 -> sp_killed sp = false -> ss_minstake (sp_set sp) <= total ->
-      sp_distribute sp_chargef_go sp_sharef_go sp value = SpOk sp' ->
-      sp_total_rewards sp' = sp_total_rewards sp + value).
-Proof.
-  intros H.
-  specialize (H sp_witness_f10a 9007199254740995 sp_witness_f10a_out 200).
-  assert (Hwf : sp_wf sp_witness_f10a).
-  { split; [constructor; [split; sp_solve_coin|constructor; [split; sp_solve_coin|constructor]]|sp_solve_coin]. }
-  specialize (H Hwf ltac:(apply Z.leb_le; reflexivity) ltac:(apply Z.ltb_lt; reflexivity)
-                ltac:(split; vm_compute; reflexivity) eq_refl ltac:(discriminate) eq_refl
-                ltac:(apply Z.leb_le; reflexivity) sp_witness_f10a_run).
-  vm_compute in H. discriminate.
-Qed.
-
-(* random-N: one selected delegate with zero stake, ratio 0.1, value 1000: 100 credited *)
+(* former zero-stake drop: one selected delegate without stake, ratio 0.1, value 1000 *)
 Definition sp_witness_zero_sel : sp_pool :=
   {| sp_pools := [sp_mk_dp 1 0 0; sp_mk_dp 2 100 0]; sp_reward := 0;
      sp_set := {| ss_wallet := 9; ss_maxdel := 10; ss_minstake := 0; ss_charge := f64_of_bits 4591870180066957722 |};
      sp_killed := false |}.
 
-Definition sp_witness_zero_sel_out : sp_pool :=
-  {| sp_pools := [sp_mk_dp 1 0 0; sp_mk_dp 2 100 0]; sp_reward := 100;
-     sp_set := sp_set sp_witness_zero_sel; sp_killed := false |}.
-
 Lemma sp_witness_zero_sel_run :
-  sp_distribute_randn sp_chargef_go sp_sharef_go sp_witness_zero_sel 1000 1 [0%nat] = SpOk sp_witness_zero_sel_out.
-Proof. vm_compute. reflexivity. Qed.
-
-Lemma sp_randn_full_statement_refuted :
-  ~ (forall sp value n draws sp' total,
-      sp_wf sp -> 0 <= value -> sp_total_rewards sp + value < sp_max ->
-      sp_ratio_in_unit (ss_charge (sp_set sp)) ->
-      NoDup (sp_selection n draws (length (sp_pools sp))) ->
-      Forall (fun i => (i < length (sp_pools sp))%nat) (sp_selection n draws (length (sp_pools sp))) ->
-      sp_stake sp = Some total -> value <> 0 -> sp_killed sp = false -> ss_minstake (sp_set sp) <= total ->
-      sp_distribute_randn sp_chargef_go sp_sharef_go sp value n draws = SpOk sp' ->
-      sp_total_rewards sp' = sp_total_rewards sp + value).
-Proof.
-  intros H.
-  specialize (H sp_witness_zero_sel 1000 1 [0%nat] sp_witness_zero_sel_out 100).
-  assert (Hwf : sp_wf sp_witness_zero_sel).
-  { split; [constructor; [split; sp_solve_coin|constructor; [split; sp_solve_coin|constructor]]|sp_solve_coin]. }
-  assert (Hnd : NoDup (sp_selection 1 [0%nat] (length (sp_pools sp_witness_zero_sel)))).
-  { vm_compute. constructor; [intros []|constructor]. }
-  assert (Hin : Forall (fun i => (i < length (sp_pools sp_witness_zero_sel))%nat)
-                       (sp_selection 1 [0%nat] (length (sp_pools sp_witness_zero_sel)))).
-  { vm_compute. constructor; [lia|constructor]. }
-  specialize (H Hwf ltac:(apply Z.leb_le; reflexivity) ltac:(apply Z.ltb_lt; reflexivity)
-                ltac:(split; vm_compute; reflexivity) Hnd Hin eq_refl ltac:(discriminate) eq_refl
-                ltac:(apply Z.leb_le; reflexivity) sp_witness_zero_sel_run).
-  vm_compute in H. discriminate.
-Qed.
+  match sp_distribute_randn sp_chargef_go sp_sharef_go sp_witness_zero_sel 1000 1 [0%nat] with
+  | SpOk sp' => sp_reward sp' = 1000 /\ map dp_reward (sp_pools sp') = [0; 0]
+  | _ => False
+  end.
+Proof. vm_compute. split; reflexivity. Qed.
 
 (* ---------- proportionality up to rounding ---------- *)
 
@@ -856,7 +829,7 @@ Section Proportional.
 
   Lemma sp_share_proportional_aux : forall sp value sp' charge incs stake,
     sp_wf sp -> 0 < value -> sp_total_rewards sp + value < sp_max ->
-    (forall c, chargef (ss_charge (sp_set sp)) value = Some c -> 0 <= c <= value) ->
+    (forall c, chargef (ss_charge (sp_set sp)) value = Some c -> 0 <= c) ->
     sp_stake sp = Some stake ->
     sp_distribute_body chargef sharef sp value = SpOk (sp', charge, incs) -> sp_pools sp <> [] ->
     exists e, sp_cred (sp_pools sp) e (sp_pools sp') /\ sp_sum e = value - charge /\
@@ -940,7 +913,7 @@ Lemma sp_share_proportional :
   (forall vl b s r, 0 < s -> sharef vl b s = Some r -> Z.abs (r * s - vl * b) <= eps * s) ->
   forall sp value sp' charge incs stake,
   sp_wf sp -> 0 < value -> sp_total_rewards sp + value < sp_max ->
-  (forall c, chargef (ss_charge (sp_set sp)) value = Some c -> 0 <= c <= value) ->
+  (forall c, chargef (ss_charge (sp_set sp)) value = Some c -> 0 <= c) ->
   sp_stake sp = Some stake ->
   sp_distribute_body chargef sharef sp value = SpOk (sp', charge, incs) -> sp_pools sp <> [] ->
   exists e, sp_cred (sp_pools sp) e (sp_pools sp') /\ sp_sum e = value - charge /\
